@@ -109,6 +109,40 @@ def scrub(rng, problem):
     return p, n, t
 
 
+LADDER = ["1", "1-r1", "1-r3", "1.5", "2", "2-r2", "2-r10"]
+
+
+def gen_revision_ladder(rng):
+    """-> (problem, name, target): one name, no dependencies anywhere; the installed version (at most one, slot 0) and
+    the 1-3 source versions are drawn from a ladder in which neighbours share the base version."""
+    name, other = rng.sample(gp.NAMES, 2)
+    nodeps = lambda: {c: [] for c in gp.DEP_CLASSES}
+    src = rng.sample(LADDER, rng.choice([1, 2, 2, 3]))
+    installed = []
+    if rng.random() < 0.85:
+        r = rng.random()
+        if r < 0.5:
+            # same base version as a source candidate
+            base = rng.choice(src).split("-r")[0]
+            iv = rng.choice([v for v in LADDER if v.split("-r")[0] == base])
+        else:
+            iv = rng.choice(LADDER)
+        installed.append({"name": name, "ver": iv, "slot": "0", "deps": nodeps()})
+    source = [{"name": name, "ver": v, "slot": "0", "deps": nodeps()} for v in src]
+    if rng.random() < 0.3:
+        source.append({"name": other, "ver": "1", "slot": "0", "deps": nodeps()})
+    rng.shuffle(source)
+    t = {"blk": "", "op": "", "name": name, "ver": None, "slot": None}
+    r = rng.random()
+    if r < 0.3:
+        c = rng.choice(src + [x["ver"] for x in installed])
+        t["op"] = rng.choice([">=", "<=", "~", "="])
+        t["ver"] = c.split("-r")[0] if t["op"] == "~" else c
+    elif r < 0.4:
+        t["slot"] = "0"
+    return {"source": source, "installed": installed, "targets": [t]}, name, t
+
+
 def strip_source(problem, name):
     return {"source": [s for s in problem["source"] if s["name"] != name], "installed": list(problem["installed"]),
             "targets": list(problem["targets"])}
@@ -597,6 +631,16 @@ def run(ctx):
                 ck.unverified(v, name, target, cls)
         if i % 20 == 0 and ctx.out_of_time(45):
             ctx.note("structured universes stopped early by the soft deadline after %d problems" % (i + 1))
+            break
+    # (c) revision ladders: candidates of one name that share a base version and differ in revision only, spread over
+    # the installed and the source repository (equal versions on both sides included)
+    n = ctx.budget(160, 2000)
+    for i in range(n):
+        problem, name, target = gen_revision_ladder(ctx.rng)
+        ctx.count("revision_ladder_problems")
+        ck.bruteforce(problem, name, target, "shape", ck.policy(problem, name, target))
+        if i % 20 == 0 and ctx.out_of_time(35):
+            ctx.note("revision ladders stopped early by the soft deadline after %d problems" % (i + 1))
             break
     sample = ck.sampled[: ctx.budget(25, 150)]
     ck.hashseed_child(sample)
